@@ -812,6 +812,12 @@ def skeletons():
     add("cte-nested-shadow", sel([STAR], [sub(nested, "sa"), sub(sel([STAR], [u]), "sb")], with_=[(wa, i1, None)]))
     add("cte-nested-shadow", sel([STAR], [sub(sel([STAR], [u]), "sb"), sub(nested, "sa")], with_=[(wa, i1, None)]))
     add("cte-nested-shadow", sel([pe(xa), pe(col("d", AT("sb")))], [sub(nested, "sa"), sub(sel([pe(col("d")), pe(col("c"))], [u]), "sb")], with_=[(wa, i1, None)]))
+    # an inner WITH re-defines the OUTER CTE's name with other columns, and a LATER sibling CTE of that inner WITH reads the name:
+    # it must see the inner definition
+    wb0 = AT("wb")
+    inner_redef = sel([STAR], [cte(wb0)], with_=[(wa, sel([pe(col("d")), pe(col("c"))], [u]), None), (wb0, sel([STAR], [cte(wa)]), None)])
+    add("cte-nested-shadow", sel([STAR], [sub(inner_redef, "sa")], with_=[(wa, i1, None)]))
+    add("cte-nested-shadow", sel([pe(col("d", AT("sa")))], [sub(inner_redef, "sa")], with_=[(wa, i1, None)]))
     # chained CTEs
     wb = AT("wb")
     add("cte-chain", sel([STAR], [cte(wb)], with_=[(wa, i1, None), (wb, sel([STAR], [cte(wa)]), None)]))
